@@ -240,6 +240,123 @@ Proof.
     apply keys_adel in Hk as [Hk _]. apply keys_adel in Hk as [Hk Hnd]. apply keys_aset in Hk as [[Hk _]|Hk]; [now apply H1|congruence].
 Qed.
 
+(* ---- locals is globals *)
+Lemma run_ops_snd_lookup l : forall loc1 loc2 g1 g2 (P : N -> Prop),
+  (forall k, P k -> aget g1 k = aget g2 k) -> forall k, P k -> aget (snd (run_ops l (loc1, g1))) k = aget (snd (run_ops l (loc2, g2))) k.
+Proof.
+  induction l as [|o l IH]; intros loc1 loc2 g1 g2 P H k Hk; [cbn; auto|].
+  destruct o as [x v|x|x v]; cbn [run_ops fold_left apply_op].
+  - exact (IH _ _ g1 g2 P H k Hk).
+  - exact (IH _ _ g1 g2 P H k Hk).
+  - apply (IH _ _ (aset g1 x v) (aset g2 x v) P); [|exact Hk]. intros j Hj. rewrite !aget_aset. destruct (N.eqb j x); auto.
+Qed.
+Lemma run_ops_fst_indep l : forall loc g1 g2, fst (run_ops l (loc, g1)) = fst (run_ops l (loc, g2)).
+Proof. induction l as [|o l IH]; intros loc g1 g2; cbn; auto. destruct o; cbn; apply IH. Qed.
+Lemma aget_flat_pt (g : assoc) names x :
+  aget (flat_map (fun k => match aget g k with Some v => [(k, v)] | None => [] end) names) x =
+    if existsb (N.eqb x) names then aget g x else None.
+Proof.
+  induction names as [|k names IH]; [reflexivity|]. cbn [flat_map existsb]. rewrite aget_app, IH.
+  destruct (N.eqb_spec x k) as [->|Hne]; cbn [orb].
+  - destruct (aget g k) as [v|] eqn:E; cbn [aget]; [now rewrite N.eqb_refl|]. now destruct (existsb (N.eqb k) names).
+  - destruct (aget g k) as [v|] eqn:E; cbn [aget]; [|reflexivity].
+    destruct (N.eqb_spec k x) as [->|_]; [congruence|reflexivity].
+Qed.
+Lemma existsb_keys_filter (f : N -> bool) (M : assoc) x :
+  existsb (N.eqb x) (map fst (filter (fun kv => f (fst kv)) M)) = f x && existsb (N.eqb x) (keys M).
+Proof.
+  unfold keys. induction M as [|[k v] M IH]; cbn [filter map existsb fst]; [now rewrite andb_false_r|].
+  destruct (f k) eqn:Ek; cbn [map existsb fst]; rewrite IH.
+  - destruct (N.eqb_spec x k) as [->|_]; cbn [orb]; [now rewrite Ek|reflexivity].
+  - destruct (N.eqb_spec x k) as [->|_]; cbn [orb]; [rewrite Ek; reflexivity|reflexivity].
+Qed.
+
+(* locals is globals: the mapping afterwards holds, name by name, what the reference's globals hold; the result holds the
+   reference's locals for the names that are parameters, and for the supplied names that are not (declared global, or no possible
+   parameter name) their FINAL value in the mapping *)
+Theorem exec_same_refines M p : user_map M -> user_prog p -> wf_prog p -> raises_after p = None ->
+  exists res M', exec_same M p = (Some res, M') /\
+    (forall k, aget M' k = aget (snd (spec_same M p)) k) /\
+    (forall k, aget res k =
+       if is_param (gdecl p) k then aget (fst (spec_same M p)) k
+       else if usable k && existsb (N.eqb k) (keys M) then aget (snd (spec_same M p)) k else None).
+Proof.
+  intros HM Hp Hw Hr. unfold exec_same, spec_same. rewrite Hr.
+  set (params := filter (fun kv => is_param (gdecl p) (fst kv)) M).
+  set (M1 := aset (aset M n_env 0) n_fun 0).
+  assert (Hpar : user_map params) by (apply user_map_filter; exact HM).
+  pose proof (run_ops_fst_indep (ops p) params M1 M) as Hfst.
+  pose proof (run_ops_keys (ops p) params M Hp Hpar HM) as [HlocK HgK].
+  (* globals: equal on every name but the two scaffold names *)
+  assert (Hg : forall k, k <> n_env -> k <> n_fun -> aget (snd (run_ops (ops p) (params, M1))) k = aget (snd (run_ops (ops p) (params, M))) k).
+  { intros k H1 H2. apply (run_ops_snd_lookup (ops p) params params M1 M (fun k => k <> n_env /\ k <> n_fun)); [|tauto].
+    intros j [J1 J2]. unfold M1. rewrite !aget_aset.
+    destruct (N.eqb_spec j n_fun) as [->|_]; [congruence|]. destruct (N.eqb_spec j n_env) as [->|_]; [congruence|reflexivity]. }
+  (* the program's locals never hold a name that is not a parameter *)
+  assert (HlocNP : forall x, is_param (gdecl p) x = false -> aget (fst (run_ops (ops p) (params, M))) x = None).
+  { intros x Hx.
+    assert (He : forall y, is_param (gdecl p) y = true -> aget params y = aget params y) by reflexivity.
+    destruct (run_ops_lookup (gdecl p) (ops p) params params M Hp Hw He) as [_ H2].
+    destruct (H2 x Hx) as [A _]. transitivity (aget params x); [exact A|]. unfold params.
+    now rewrite (aget_filter (is_param (gdecl p))), Hx. }
+  unfold assoc in *.
+  destruct (run_ops (ops p) (params, M1)) as [loc g] eqn:E1. destruct (run_ops (ops p) (params, M)) as [locS gS] eqn:E2.
+  cbn [fst snd] in *. subst loc.
+  assert (Hsmall : forall x, (x < 10)%N -> aget locS x = None /\ aget gS x = None).
+  { intros x Hx. split; apply aget_none_notin; intros Hc; [apply HlocK in Hc|apply HgK in Hc]; lia. }
+  eexists. eexists. split; [reflexivity|]. split.
+  - intros k. rewrite !aget_adel.
+    destruct (N.eqb_spec k n_env) as [->|H1]. { destruct (Hsmall n_env) as [_ B]; [unfold n_env; lia|]. now rewrite B. }
+    destruct (N.eqb_spec k n_fun) as [->|H2]. { destruct (Hsmall n_fun) as [_ B]; [unfold n_fun; lia|]. now rewrite B. }
+    exact (Hg k H1 H2).
+  - intros k. rewrite aget_setdefaults, !aget_adel, aget_aset, aget_flat_pt, (existsb_keys_filter (passes_through (gdecl p)) M k).
+    destruct (N.eqb_spec k n_builtins) as [->|Hnb].
+    { destruct (Hsmall n_builtins) as [A B]; [unfold n_builtins; lia|]. cbn [andb].
+      assert (Hk : existsb (N.eqb n_builtins) (keys M) = false).
+      { destruct (existsb (N.eqb n_builtins) (keys M)) eqn:Ex; [|reflexivity]. apply existsb_exists in Ex as (y & Hy & Ey).
+        apply N.eqb_eq in Ey; subst y. apply HM in Hy. unfold n_builtins in Hy. lia. }
+      rewrite Hk, !andb_false_r. destruct (is_param (gdecl p) n_builtins); [now rewrite A|reflexivity]. }
+    destruct (N.eqb_spec k n_dunder) as [->|Hnd].
+    { destruct (Hsmall n_dunder) as [A B]; [unfold n_dunder; lia|].
+      assert (Hk : existsb (N.eqb n_dunder) (keys M) = false).
+      { destruct (existsb (N.eqb n_dunder) (keys M)) eqn:Ex; [|reflexivity]. apply existsb_exists in Ex as (y & Hy & Ey).
+        apply N.eqb_eq in Ey; subst y. apply HM in Hy. unfold n_dunder in Hy. lia. }
+      rewrite Hk, !andb_false_r. destruct (is_param (gdecl p) n_dunder); [now rewrite A|reflexivity]. }
+    destruct (is_param (gdecl p) k) eqn:Ek.
+    + unfold passes_through. rewrite Ek. cbn [negb andb]. now destruct (aget locS k).
+    + rewrite (HlocNP k Ek). unfold passes_through. rewrite Ek. cbn [negb andb].
+      destruct (usable k && existsb (N.eqb k) (keys M)) eqn:Eu; [|reflexivity].
+      apply andb_prop in Eu as [Eu Ein]. apply existsb_exists in Ein as (y & Hy & Ey). apply N.eqb_eq in Ey; subst y.
+      pose proof (HM k Hy) as Hk10.
+      apply Hg; unfold n_env, n_fun; lia.
+Qed.
+
+Theorem exec_same_raises M p i : user_map M -> user_prog p -> raises_after p = Some i ->
+  exists M', exec_same M p = (None, M') /\
+    forall k, aget M' k = aget (snd (run_ops (firstn i (ops p)) (filter (fun kv => is_param (gdecl p) (fst kv)) M, M))) k.
+Proof.
+  intros HM Hp Hr. unfold exec_same. rewrite Hr.
+  set (params := filter (fun kv => is_param (gdecl p) (fst kv)) M).
+  set (M1 := aset (aset M n_env 0) n_fun 0).
+  assert (Hpar : user_map params) by (apply user_map_filter; exact HM).
+  assert (Hin : forall (l : list op) i o, In o (firstn i l) -> In o l).
+  { induction l as [|x l IHl]; intros [|j] o Ho; cbn in *; auto; try contradiction. destruct Ho as [->|Ho]; eauto. }
+  assert (Hq : forall o, In o (firstn i (ops p)) -> (10 <= op_name o)%N) by (intros o Ho; apply Hp; eapply Hin; eauto).
+  pose proof (run_ops_keys (firstn i (ops p)) params M Hq Hpar HM) as [_ HgK].
+  assert (Hg : forall k, k <> n_env -> k <> n_fun ->
+            aget (snd (run_ops (firstn i (ops p)) (params, M1))) k = aget (snd (run_ops (firstn i (ops p)) (params, M))) k).
+  { intros k H1 H2. apply (run_ops_snd_lookup (firstn i (ops p)) params params M1 M (fun k => k <> n_env /\ k <> n_fun)); [|tauto].
+    intros j [J1 J2]. unfold M1. rewrite !aget_aset.
+    destruct (N.eqb_spec j n_fun) as [->|_]; [congruence|]. destruct (N.eqb_spec j n_env) as [->|_]; [congruence|reflexivity]. }
+  unfold assoc in *.
+  destruct (run_ops (firstn i (ops p)) (params, M1)) as [loc g]. destruct (run_ops (firstn i (ops p)) (params, M)) as [locS gS].
+  cbn [fst snd] in *. eexists. split; [reflexivity|]. intros k. rewrite !aget_adel.
+  assert (Hs : forall x, (x < 10)%N -> aget gS x = None) by (intros x Hx; apply aget_none_notin; intros Hc; apply HgK in Hc; lia).
+  destruct (N.eqb_spec k n_env) as [->|H1]. { now rewrite Hs by (unfold n_env; lia). }
+  destruct (N.eqb_spec k n_fun) as [->|H2]. { now rewrite Hs by (unfold n_fun; lia). }
+  exact (Hg k H1 H2).
+Qed.
+
 (* a program that binds the names `builtins` or `__` loses them from the result (known finding) *)
 Theorem reserved_names_refuted :
   exists p, raises_after p = None /\
